@@ -71,7 +71,12 @@ func isErrorWrapperFunc(pass *analysishelper.EnhancedPass, call *ast.CallExpr) b
 	var funcObj *types.Func
 	if obj := pass.TypesInfo.ObjectOf(funcIdent); obj != nil {
 		if fObj, ok := obj.(*types.Func); ok {
-			if typeshelper.FuncIsErrReturning(typeshelper.GetFuncSignature(fObj.Signature())) {
+			// The producer created for an error wrapper stands for the value of the whole call
+			// expression, so the heuristic only applies to functions whose single result is the
+			// error. For a function such as `func(err error) (*T, error)`, the non-error results
+			// are still guarded by the returned error and must not be assumed non-nil.
+			sig := typeshelper.GetFuncSignature(fObj.Signature())
+			if typeshelper.FuncIsErrReturning(sig) && sig.Results().Len() == 1 {
 				funcObj = fObj
 			}
 		}
